@@ -29,6 +29,10 @@ class _VirtualSelector:
         events = self._real.select(0)
         loop = self._loop
         loop.iterations += 1
+        if loop.at_iteration:
+            fn = loop.at_iteration.pop(loop.iterations, None)
+            if fn is not None:
+                loop.call_soon(fn)
         if events:
             loop.last_io_iteration = loop.iterations
             return events
@@ -50,6 +54,7 @@ class VirtualLoop(asyncio.SelectorEventLoop):
         self.last_io_iteration = 0
         self._selector = _VirtualSelector(self._selector, self)
         self.captured: list[dict] = []
+        self.at_iteration: dict[int, object] = {}  # absolute iteration index -> callable (failpoint / sweep trigger)
         self.transport_factory = None
         self.set_exception_handler(self._capture)
 
